@@ -125,7 +125,8 @@ func init() {
 		"(context.Context).Err": func(c *Ctx, st *State, fr *Frame, ins ssa.Instruction, call *ssa.CallCommon, res ssa.Value, recv Term, args []Value) []cont {
 			v := c.FreshConst(st, "ctx.err", SAny)
 			cd := c.Arr(st, famCtxDone, ArraySort(SInt, SBool))
-			st.Assume(Implies(Select(cd, c.ctxID(st, recv)), Not(Eq(v, Term{"nil_any", SAny}))))
+			// Err() is non-nil exactly when the context is done
+			st.Assume(Eq(Select(cd, c.ctxID(st, recv)), Not(Eq(v, Term{"nil_any", SAny}))))
 			fr.regs[res] = v
 			return one(st, fr)
 		},
